@@ -57,6 +57,16 @@ var twinProgs = []string{
 	"(in-package 'bpk) (export 'spin) (defun spin (n) (if (<= n 0) 'done (apply 'spin (list (- n 1))))) (in-package 'user) (apply 'bpk:spin (list n0))",
 	"(in-package 'bpk) (export 'spin) (defun spin (n) (if (<= n 0) 'done (funcall 'spin (- n 1)))) (in-package 'user) (defun enter (n) (funcall 'bpk:spin n)) (enter n0)",
 	"(in-package 'bpk) (export 'spin) (set 'tag 'in-bpk) (defun spin (n) (if (<= n 0) tag (funcall 'spin (- n 1)))) (in-package 'user) (set 'tag 'in-user) (list (funcall 'bpk:spin n0) tag)",
+	// closures made during one turn of a collapsed loop that capture the turn's parameters and are
+	// still alive in later turns / after the loop: each keeps the bindings of ITS turn
+	"(defun collect (n acc) (if (= n 0) (map 'list (lambda (f) (funcall f)) acc) (collect (- n 1) (cons (lambda () n) acc)))) (collect n0 ())",
+	"(defun fact-k (n k) (if (= n 0) (funcall k 1) (fact-k (- n 1) (lambda (v) (funcall k (* n v)))))) (fact-k n0 (lambda (v) v))",
+	"(defun lp (n acc) (cond ((= n 0) (map 'list (lambda (f) (funcall f)) acc)) (true (let ((m (+ n 100))) (progn (lp (- n 1) (cons (lambda () (+ m n)) acc))))))) (lp n0 ())",
+	"(defun viaf (n acc) (if (= n 0) (map 'list (lambda (f) (funcall f)) acc) (funcall 'viaf (- n 1) (cons (lambda () (list n (length acc))) acc)))) (viaf n0 ())",
+	"(defun viaa (n acc) (if (= n 0) (map 'list (lambda (f) (funcall f 1)) acc) (apply viaa (list (- n 1) (cons (lambda (d) (+ n d)) acc))))) (viaa n0 ())",
+	"(defun ev2 (n acc) (if (= n 0) (map 'list (lambda (f) (funcall f)) acc) (od2 (- n 1) (cons (lambda () (list 'e n)) acc)))) (defun od2 (n acc) (if (= n 0) (map 'list (lambda (f) (funcall f)) acc) (ev2 (- n 1) (cons (lambda () (list 'o n)) acc)))) (ev2 n0 ())",
+	"(defun setter (n acc) (if (= n 0) (map 'list (lambda (f) (funcall f)) acc) (progn (set! n (* n 1)) (setter (- n 1) (cons (lambda () (set! n (+ n 10)) n) acc))))) (setter n0 ())",
+	"(defun opt (n &optional acc) (if (= n 0) (map 'list (lambda (f) (funcall f)) acc) (opt (- n 1) (cons (lambda () n) acc)))) (opt n0)",
 }
 
 // The value, effects and error condition are the same whether tail calls are eliminated or not.
